@@ -79,6 +79,16 @@ Theorem C01_iter_resume_chain_every_step : forall c, c_kind c = KIter -> 0 < c_W
 Proof. exact iter_resume_chain_I1. Qed.
 Print Assumptions C01_iter_resume_chain_every_step.
 
+(* snapshot_every_n_steps = 0, iterable datasets WITH or WITHOUT a state of their own (restore path / fast-forward path: fresh workers,
+   the steps replayed): any finite chain of checkpoint/resume, every arrival schedule throughout *)
+Theorem C01_iter_resume_chain_no_snapshots : forall c, c_kind c = KIter -> 0 < c_W c -> 0 < c_P c -> c_I c = 0 ->
+  forall ks sched, fold_right Nat.add 0 ks <= length (reference c) ->
+  let '(s, sched') := chain c ks (sdl_fresh c) sched in
+  let p := fold_right Nat.add 0 ks in
+  outcomes c (S (length (reference c) - p)) s sched' = map OBatch (skipn p (reference c)) ++ [OStop].
+Proof. exact iter_resume_chain_I0. Qed.
+Print Assumptions C01_iter_resume_chain_no_snapshots.
+
 (* iterable datasets, ANY snapshot interval, the MAIN-process side of a resume, PROVED for every state dict d and EVERY arrival
    schedule of the resumed run: if the per-worker entries of d restore workers whose remaining answers are the batch lists B
    (workers_ok: queue empty, alive, future answers = B w from its first task on; one placeholder in front for the workers below
